@@ -108,6 +108,11 @@ func (e *Env) mapNames(mt *types.Map) (mv, mp, vs, ks string) {
 	return "MV!" + suffix, "MP!" + suffix, vs, ks
 }
 
+// mlName: the heap map holding the lengths of the Go maps of type mt (one per key/value sort pair).
+func (e *Env) mlName(mt *types.Map) string {
+	return "ML!" + mangle(e.sr.sortOf(mt.Key())+"!"+e.sr.sortOf(mt.Elem()))
+}
+
 func (e *Env) mapGet(s *State, m Value, k Value) Value {
 	mt := m.GoT.Underlying().(*types.Map)
 	mv, mp, vs, ks := e.mapNames(mt)
@@ -131,7 +136,7 @@ func (e *Env) mapHas(s *State, m Value, k Value) string {
 }
 
 func (e *Env) mapLen(s *State, m Value) string {
-	ml := e.heapGet(s, "ML", arr("Int", "Int"))
+	ml := e.heapGet(s, e.mlName(m.GoT.Underlying().(*types.Map)), arr("Int", "Int"))
 	return sel2(ml, m.T)
 }
 
@@ -146,9 +151,9 @@ func (e *Env) mapSet(s *State, m Value, k Value, v Value) {
 	}
 	vals := e.heapGet(s, mv, arr("Int", arr(ks, vs)))
 	pres := e.heapGet(s, mp, arr("Int", arr(ks, "Bool")))
-	ml := e.heapGet(s, "ML", arr("Int", "Int"))
+	ml := e.heapGet(s, e.mlName(mt), arr("Int", "Int"))
 	had := sel2(sel2(pres, m.T), k.T)
-	e.heapSet(s, "ML", arr("Int", "Int"), sto(ml, m.T, ite(had, sel2(ml, m.T), add(sel2(ml, m.T), "1"))))
+	e.heapSet(s, e.mlName(mt), arr("Int", "Int"), sto(ml, m.T, ite(had, sel2(ml, m.T), add(sel2(ml, m.T), "1"))))
 	e.heapSet(s, mv, arr("Int", arr(ks, vs)), sto(vals, m.T, sto(sel2(vals, m.T), k.T, v.T)))
 	e.heapSet(s, mp, arr("Int", arr(ks, "Bool")), sto(pres, m.T, sto(sel2(pres, m.T), k.T, "true")))
 }
@@ -160,9 +165,9 @@ func (e *Env) mapDelete(s *State, m Value, k Value) {
 		k = e.makeIface(k)
 	}
 	pres := e.heapGet(s, mp, arr("Int", arr(ks, "Bool")))
-	ml := e.heapGet(s, "ML", arr("Int", "Int"))
+	ml := e.heapGet(s, e.mlName(mt), arr("Int", "Int"))
 	had := sel2(sel2(pres, m.T), k.T)
-	e.heapSet(s, "ML", arr("Int", "Int"), sto(ml, m.T, ite(had, sub(sel2(ml, m.T), "1"), sel2(ml, m.T))))
+	e.heapSet(s, e.mlName(mt), arr("Int", "Int"), sto(ml, m.T, ite(had, sub(sel2(ml, m.T), "1"), sel2(ml, m.T))))
 	e.heapSet(s, mp, arr("Int", arr(ks, "Bool")), sto(pres, m.T, sto(sel2(pres, m.T), k.T, "false")))
 }
 
@@ -171,9 +176,13 @@ func (e *Env) mapNew(s *State, mt types.Type) Value {
 	_, mp, _, ks := e.mapNames(m)
 	r := e.allocRef(s, "map")
 	pres := e.heapGet(s, mp, arr("Int", arr(ks, "Bool")))
-	ml := e.heapGet(s, "ML", arr("Int", "Int"))
-	e.heapSet(s, mp, arr("Int", arr(ks, "Bool")), sto(pres, r, "((as const "+arr(ks, "Bool")+") false)"))
-	e.heapSet(s, "ML", arr("Int", "Int"), sto(ml, r, "0"))
+	ml := e.heapGet(s, e.mlName(m), arr("Int", "Int"))
+	// Unallocated references hold zero values in every heap map of the model (memory is
+	// zero-initialised and nothing writes above the allocation counter), so a new map is
+	// described by an assumption about the current maps rather than by a store: predicates over
+	// whole map versions (opaque invariants) then survive the allocation.
+	s.assume(eq(sel2(pres, r), "((as const "+arr(ks, "Bool")+") false)"))
+	s.assume(eq(sel2(ml, r), "0"))
 	return Value{T: r, Sort: "Int", GoT: mt}
 }
 
